@@ -13,6 +13,7 @@ from ..stream import simpler_schedules
 from ..bodyreq import body_request
 from .. import gen_multipart as gm
 from .. import shrink
+from .. import twin as _twin
 
 PROP = 'C06'
 LEVEL = 'fault_enumeration'
@@ -120,7 +121,7 @@ def _body_of(case):
     return body
 
 
-def gen_case(rng, tier):
+def _gen_case(rng, tier):
     level = 'b' if rng.random() < 0.5 else 'a'
     st = gm.gen_structure(rng, token_only=(level == 'b'), max_parts=4,
                           max_data=(60 if tier == 'quick' else rng.choice([60, 200, 2000])))
@@ -241,7 +242,7 @@ def expand_unit(u):
             yield cc
 
 
-def summarise(case):
+def _summarise(case):
     body = _body_of(case)
     return {'boundary': case['st']['boundary'], 'body': body[:300].decode('latin1'), 'len': len(body),
             'prefix_of_wellformed': case.get('plen') is not None, 'cuts': case['cuts'][:40], 'level': case['level'],
@@ -266,7 +267,7 @@ def _canon_b(o):
             'escaped': repr(o.resp.escaped) if o.resp.escaped else None}
 
 
-def run_case(case):
+def _run_case(case):
     res = new_result()
     log = Log(case.get('_seed'))
     st = case['st']
@@ -373,7 +374,7 @@ def _short(r):
     return str(r)[:80]
 
 
-def shrink_candidates(case):
+def _shrink_candidates(case):
     st = case['st']
     full, _ = gm.build(st)
 
@@ -444,3 +445,37 @@ def shrink_candidates(case):
             c['level'] = 'a'
             c.pop('B', None)
             yield c
+
+
+# ---- concurrent twins of the WSGI-level cases (the same upload served by 2-3 threads through one application) -------
+
+TWIN_SHARE = 0.03
+
+
+def gen_case(rng, tier):
+    return _twin.maybe_wrap(rng, _gen_case(rng, tier), TWIN_SHARE, est_steps=2500,
+                            ok=lambda c: c['level'] == 'b' and len(c['st'].get('parts', [])) <= 4
+                            and sum(len(p['data']) for p in c['st']['parts']) <= 4000)
+
+
+def run_case(case):
+    if 'twin' in case:
+        return _twin.run(lambda inner, i: _run_case(inner), case)
+    return _run_case(case)
+
+
+def shrink_candidates(case):
+    if 'twin' in case:
+        yield from _twin.shrink_candidates(case, _shrink_candidates)
+        return
+    yield from _shrink_candidates(case)
+
+
+def summarise(case):
+    if 'twin' in case:
+        return {'twin_of': _summarise(case['twin']), 'threads': case.get('n', 2), 'plan': case['plan']}
+    return _summarise(case)
+
+
+def setup_worker():
+    _twin.warm(_gen_case, _run_case)
